@@ -4,6 +4,7 @@
    Run with the current directory set to the output directory (driver/extracted). *)
 From Coq Require Import Extraction ExtrOcamlBasic.
 From Crusta Require Import Spec.AF Sat.Cnf Sat.Prog Model.Store Model.Encoders Model.Graph Model.Solvers.
+From Crusta Require Import Sat.Dpll Sat.Dimacs Model.SatObjects Model.Pipe.
 Extraction Language OCaml.
 Separate Extraction
   (* spec oracle *)
@@ -20,4 +21,12 @@ Separate Extraction
   (* SAT programs, graph algorithms, static solvers *)
   Prog.init_st Prog.log_of Prog.script_oracle Prog.run
   Graph.view_of_fw Graph.view_of_af Graph.grounded Graph.all_ccs Graph.merged_cc_of Graph.cc_new
-  Solvers.run_query.
+  Solvers.run_query
+  (* reference SAT solver, DIMACS text, SAT solver objects, pipe LTS (C15/C16, vdpll) *)
+  Dpll.solve Dpll.solve_n Dpll.solve_answer
+  Dimacs.parse_instance Dimacs.print_instance Dimacs.reply_parse Dimacs.print_reply Dimacs.render_sat
+  Dimacs.render_unsat
+  SatObjects.cad_step SatObjects.buf_step SatObjects.cad_new SatObjects.buf_new SatObjects.run_obj
+  SatObjects.vdpll_fn SatObjects.dpll_backend SatObjects.buf_instance SatObjects.verdict_of
+  SatObjects.obs_of_reply SatObjects.clauses_of
+  Pipe.run_config Pipe.steps Pipe.init Pipe.stuck.
